@@ -21,7 +21,8 @@ RULE = (
     "a marker naming its own origin; helper includes live in sub-directories), builds a generator under a seeded "
     "enumeration-order permutation, runs a seeded lookup history (filter_type_to_template on instances of every pydsdl class "
     "in the input, generate_all, repeated) and compares every answer with a nearest-ancestor model; checks the loader under "
-    "both search policies for same-name precedence; checks every instance test against isinstance; and builds environments "
+    "both search policies for same-name precedence under every spelling Jinja treats as one name; checks every instance test "
+    "against isinstance (and against undefined / foreign values: members of no class); and builds environments "
     "with additional filters/tests/globals whose names are drawn from Jinja built-ins, nunavut's own names, reserved names "
     "and fresh names. Distinct = digest of (template subset, search dirs, language, lookup order, addition names); "
     "non-trivial = the user set lacks the exact class template for at least one looked-up class (an ancestor walk happens) "
